@@ -514,3 +514,30 @@ package factstore
 //@   loop 2 invariant forall k int :: 0 <= k && k < len(result) ==> conc(result[k]) && result[k].Start.Timestamp <= result[k].End.Timestamp
 //@   loop 2 invariant forall a int, b int :: 0 <= a && a < b && b < len(result) ==> apart(result[a], result[b])
 //@   loop 2 invariant (forall k int :: 0 <= k && k < len(concrete) ==> conc(concrete[k]) && concrete[k].Start.Timestamp <= concrete[k].End.Timestamp) && (forall k int :: 0 <= k && k < len(other) ==> !conc(other[k]))
+
+// ---- C01 / C20: the array store as the engine's delta store (ASSUMED contracts over the ghost view; the bodies of
+// Add/Contains of this store are not verified, only its queries' soundness is, above) ------------------------------
+//@ func NewMultiIndexedArrayInMemoryStore()
+//@   trusted
+//@   opt freshresult
+//@   modifies nothing
+//@   ensures result != nil && (forall a ast.Atom :: a !in view(result))
+
+//@ func (s *MultiIndexedArrayInMemoryStore) EstimateFactCount()
+//@   trusted
+//@   modifies nothing
+//@   ensures result == fcount(s)
+
+//@ func (s *MultiIndexedArrayInMemoryStore) Add(a)
+//@   trusted
+//@   requires s != nil
+//@   modifies view(s), fcount(s)
+//@   ensures result == !old(a in view(s))
+//@   ensures forall b ast.Atom :: (b in view(s)) == (old(b in view(s)) || ast.atomEq(b, a))
+
+// Temporal stores keep their own state (ghost tstate); their operations do not touch the plain fact stores (ASSUMED).
+//@ ghost tstate(s ReadOnlyTemporalFactStore) int
+//@ func (self TemporalFactStore) Add(atom, interval)
+//@   modifies tstate(self)
+//@ func (self ReadOnlyTemporalFactStore) EstimateFactCount()
+//@   modifies nothing
